@@ -74,7 +74,7 @@ func (k *OpK) UnmarshalJSON(b []byte) error {
 
 // StatusSpec is what a handler returns.
 type StatusSpec struct {
-	ErrKind int    `json:"ek"` // 0 status error, 1 wrapped status, 2 plain error, 3 context.Canceled, 4 context.DeadlineExceeded, 5 an error whose GRPCStatus() has code OK
+	ErrKind int    `json:"ek"` // 0 status error, 1 wrapped status, 2 plain error, 3 context.Canceled, 4 context.DeadlineExceeded, 5 an error whose GRPCStatus() has code OK, 6 io.EOF, 7 wrapped io.EOF
 	Code    int    `json:"code"`
 	Msg     string `json:"msg"`
 	Details int    `json:"details"` // number of detail messages
@@ -335,6 +335,12 @@ func (sp *StatusSpec) Err() error {
 		return context.Canceled
 	case 4:
 		return context.DeadlineExceeded
+	case 6:
+		// what `if err != nil { return err }` around Recv returns once the caller has
+		// half-closed: an error like any other
+		return io.EOF
+	case 7:
+		return fmt.Errorf("reading request: %w", io.EOF)
 	case 5:
 		// an error value that carries a gRPC status whose code is OK (e.g. a relay's
 		// error type embedding the status its backend returned): still a failure
@@ -431,6 +437,17 @@ func mdOf(m map[string][]string) metadata.MD {
 	return md
 }
 
+// scribble overwrites the values of a metadata object in place, element by element:
+// what a handler does when it refills one scratch slice, or wipes a secret, after the
+// call that took the metadata has returned.
+func scribble(md metadata.MD) {
+	for _, vs := range md {
+		for i := range vs {
+			vs[i] = "overwritten-after-the-call"
+		}
+	}
+}
+
 // hop executes one handler op. ss is nil for unary handlers.
 func (s *Sim) hop(r *CallRec, ctx context.Context, ss grpc.ServerStream, op Op) (stop bool) {
 	e := s.E
@@ -502,6 +519,9 @@ func (s *Sim) hop(r *CallRec, ctx context.Context, ss grpc.ServerStream, op Op) 
 		} else {
 			grpc.SetHeader(ctx, md)
 		}
+		if r.Spec.AliasMD {
+			scribble(md)
+		}
 	case 'S':
 		e.Pt("h.sendhdr")
 		if ss != nil {
@@ -547,6 +567,9 @@ func (s *Sim) hop(r *CallRec, ctx context.Context, ss grpc.ServerStream, op Op) 
 			ss.SetTrailer(md)
 		} else {
 			grpc.SetTrailer(ctx, md)
+		}
+		if r.Spec.AliasMD {
+			scribble(md)
 		}
 	case 'w':
 		e.Pt("h.await")
